@@ -15,7 +15,7 @@ Lemma inv_replace s pid p p2 q' b' :
   (in_queue q' (p_end p2, pid) = false -> p_end p2 <= height s) ->
   (forall d, bal b' FARM d - bal (bank s) FARM d = pool_contrib p2 d - pool_contrib p d) ->
   (forall d, owed_p d p2 - owed_p d p <= (bal b' COLL d - bal (bank s) COLL d) * P18) ->
-  inv (mkSt (height s) (set pid p2 (pools s)) q' (seq s) b').
+  inv (mkSt (height s) (set pid p2 (pools s)) q' (seq s) b' (cfee s) (trate s)).
 Proof.
   intros I Hg PI2 Hnd Hq1 Hq2 Hq3 Hq4 He Hs. constructor; simpl.
   - apply Forall_vals_set; [exact (i_pools _ I)|exact PI2].
@@ -44,7 +44,7 @@ Lemma inv_replace_same_queue s pid p p2 b' :
   (in_queue (queue s) (p_end p, pid) = true -> covered p -> covered p2) ->
   (forall d, bal b' FARM d - bal (bank s) FARM d = pool_contrib p2 d - pool_contrib p d) ->
   (forall d, owed_p d p2 - owed_p d p <= (bal b' COLL d - bal (bank s) COLL d) * P18) ->
-  inv (mkSt (height s) (set pid p2 (pools s)) (queue s) (seq s) b').
+  inv (mkSt (height s) (set pid p2 (pools s)) (queue s) (seq s) b' (cfee s) (trate s)).
 Proof.
   intros I Hg PI2 Hend Hcov He Hs. apply (inv_replace s pid p p2 (queue s) b' I Hg PI2 (i_qnd _ I)); try assumption.
   - reflexivity.
